@@ -77,6 +77,15 @@ def run_property(pid: str, tier: str, seed: int) -> int:
     audit = F.audit_sources()
     for a in audit:
         broken.append({"what": "source audit", "detail": a})
+    # executable instances are not dependencies of the obligation files: rebuild them explicitly so that the
+    # correspondence always runs the model as regenerated from the current source
+    import glob as _glob
+    execs = [os.path.relpath(f, F.COQ)[:-2] + ".vo" for f in _glob.glob(os.path.join(F.COQ, pid, "*Exec*.v"))]
+    if execs:
+        with F.BuildLock():
+            ok_e, out_e = F.make(execs)
+        if not ok_e:
+            broken.append({"what": "executable model " + ", ".join(execs), "detail": out_e[-1500:]})
     # 3/4. correspondence and direct oracle (also the failing-input search)
     ctx = {"seed": seed, "tier": tier, "broken": broken}
     try:
